@@ -92,6 +92,12 @@ func VerifC15Reset(opDelay time.Duration, hook func()) {
 	c15OpDelay, c15Hook = opDelay, hook
 }
 
+// VerifC15Put creates (or replaces) a file of the harness file system.
+func VerifC15Put(name, content string) { c15FS[name] = &c15File{data: []byte(content)} }
+
+// VerifC15Ops: the number of file system operations so far.
+func VerifC15Ops() int { return c15Ops }
+
 // VerifC15Content returns the content of a file of the harness file system.
 func VerifC15Content(name string) (string, bool) { return c15Content(name) }
 
